@@ -33,7 +33,7 @@ func useAndDrop(b []byte, useInput bool, moves int) {
 // TestProp_Dropped: an input that was dropped never writes to the caller's bytes again
 func TestProp_Dropped(t *testing.T) {
 	ev.Describe("dropped", "parse.Input / buffer.Lexer over bytes with 1-4 bytes of spare capacity, used and then dropped without Restore; the caller takes the byte behind its data into use again (writes to it), the garbage collector runs twice and finalizers get time to run; oracle: the caller's array is what the caller wrote, for good; non-trivial = every case")
-	ev.Check(t, 300, func(t *rapid.T) {
+	ev.Check(t, 60, func(t *rapid.T) {
 		data := genData(t)
 		if len(data) == 0 {
 			data = []byte("x")
